@@ -47,4 +47,24 @@ pub(crate) mod verif_kani {
         let bit = (buf[1 + i / 8] >> (i % 8)) & 1 == 1;
         if i < n { assert!(bit == vals[i]); } else { assert!(!bit); }
     }
+
+    /// bounded (quick tier): every &[bool] of exactly 17 coils (three data bytes, one partial)
+    #[kani::proof]
+    #[kani::unwind(19)]
+    pub(crate) fn k_serialize_bool_slice_17() {
+        let vals: [bool; 17] = kani::any();
+        let mut buf = [0u8; 8];
+        let pos = {
+            let mut cursor = WriteCursor::new(&mut buf);
+            let s: &[bool] = &vals[..];
+            s.serialize(&mut cursor).unwrap();
+            cursor.position()
+        };
+        assert!(pos == 4);
+        assert!(buf[0] == 3);
+        let i: usize = kani::any();
+        kani::assume(i < 24);
+        let bit = (buf[1 + i / 8] >> (i % 8)) & 1 == 1;
+        if i < 17 { assert!(bit == vals[i]); } else { assert!(!bit); }
+    }
 }
